@@ -106,7 +106,7 @@ struct Obs {
     outcome: String,
 }
 
-fn observe(ctx: &mut Ctx, text: &str, stdin: &[u8]) -> Result<Obs, String> {
+fn observe(ctx: &mut Ctx, text: &str, stdin: &[u8], fuel: u64) -> Result<Obs, String> {
     let prog = match mon::parse_guarded(text, 1000, true) {
         Ok(r) => match r.result {
             Ok(p) => p,
@@ -114,7 +114,7 @@ fn observe(ctx: &mut Ctx, text: &str, stdin: &[u8]) -> Result<Obs, String> {
         },
         Err(p) => return Err(format!("parse panic: {}", p.msg)),
     };
-    let opts = ExecOpts { fuel: 200_000, ..Default::default() };
+    let opts = ExecOpts { fuel, ..Default::default() };
     ctx.eval();
     let r = match mon::exec_guarded(&prog, stdin, &opts) {
         ExecOutcome::Done(run) => Ok(Obs {
@@ -173,7 +173,8 @@ pub fn run(ctx: &mut Ctx) {
                 return;
             }
         };
-        let base = match observe(ctx, &base_text, stdin) {
+        let fuel = model.steps * 8 + 1000;
+        let base = match observe(ctx, &base_text, stdin, fuel) {
             Ok(o) => o,
             Err(e) => {
                 ctx.violation("base_program_unusable", &e, Json::obj().with("src", Json::s(&base_text)));
@@ -199,7 +200,7 @@ pub fn run(ctx: &mut Ctx) {
                 }
             };
             ctx.count("transforms");
-            match observe(ctx, &text, stdin) {
+            match observe(ctx, &text, stdin, fuel) {
                 Err(e) => {
                     ctx.violation(
                         "transformed_program_rejected",
